@@ -129,7 +129,7 @@ def gen_generic(draw):
             steps.append(["remove_unknown"])
         else:
             a, b = draw(st.permutations([0, 1, 2]))[:2]
-            steps.append(["conv", a, b])
+            steps.append(["conv", a, b, draw(st.sampled_from([7, 7, 0, -3]))])
     return {"k": "generic", "funcs": funcs, "steps": steps}
 
 
@@ -162,17 +162,23 @@ class Run:
             self.ok = False
 
     def convert(self, code, where):
+        self._convert(code, where, 1)
+        self._convert(code, where, 0)       # a converter answering zero still is the one that answers
+
+    def _convert(self, code, where, amount):
         cur = Money.get_unit_by_symbol(code)
-        m = Money(1, EUR)
+        m = Money(amount, EUR)
         self.ctx.tick()
         want = None
         if self.stack:
             want = _RATES[self.stack[-1]].get(code)
+            if want is not None:
+                want = want * amount
         try:
             res = m.convert(cur)
         except UnitConversionError:
             if want is not None:
-                self.ctx.viol("money/convert/rejected", f"{where}: 1 EUR -> {code} raised UnitConversionError; the most "
+                self.ctx.viol("money/convert/rejected", f"{where}: {amount} EUR -> {code} raised UnitConversionError; the most "
                               f"recently registered converter #{self.stack[-1]} has the rate {want}")
                 self.ok = False
             return
@@ -182,11 +188,11 @@ class Run:
             self.ok = False
             return
         if want is None:
-            self.ctx.viol("money/convert/phantom", f"{where}: 1 EUR -> {code} = {res!r} with converter stack "
+            self.ctx.viol("money/convert/phantom", f"{where}: {amount} EUR -> {code} = {res!r} with converter stack "
                           f"{self.stack} (top has no such rate / no converter active)")
             self.ok = False
         elif res.unit is not cur or F(res.amount) != F(want):
-            self.ctx.viol("money/convert/wrong_converter", f"{where}: 1 EUR -> {code} = {res!r}; the most recently "
+            self.ctx.viol("money/convert/wrong_converter", f"{where}: {amount} EUR -> {code} = {res!r}; the most recently "
                           f"registered converter #{self.stack[-1]} gives {want} (stack {self.stack})")
             self.ok = False
 
@@ -355,11 +361,12 @@ def _run_generic(case, ctx):
                 removed = True
         else:
             a, b = stp[1], stp[2]
-            q = G(7, units[a])
+            amt = stp[3] if len(stp) > 3 else 7
+            q = G(amt, units[a])
             want = None
             for fi in reversed(model):
                 if [a, b] in case["funcs"][fi]["pairs"]:
-                    want = 7 * case["funcs"][fi]["factor"]
+                    want = amt * case["funcs"][fi]["factor"]
                     break
             ctx.tick()
             if removed:
